@@ -7,6 +7,11 @@ package main
 
 import (
 	"fmt"
+	"github.com/goatcms/goatcore/app/gio"
+	"github.com/goatcms/goatcore/app/modules/terminalm/termservices"
+	"io"
+	"strconv"
+	"strings"
 	"sync"
 	"sync/atomic"
 	"time"
@@ -294,6 +299,104 @@ func runRefused(c *sup.Child, idx int) {
 		}
 		r.AddObs("refused_submissions_that_left_nothing_behind", 1)
 		r.Key = fmt.Sprintf("refused|%s|%v", badSandbox, nested)
+		r.Nontrivial = true
+	})
+}
+
+// countingReader is a plain io.Reader (no ReadByte) that counts what was taken from it.
+type countingReader struct {
+	r io.Reader
+	n int
+}
+
+func (c *countingReader) Read(p []byte) (int, error) {
+	n, err := c.r.Read(p)
+	c.n += n
+	return n, err
+}
+
+// runReader: several commands in one plain reader are run one by one with the terminal service's
+// RunCommandFromReader: every call runs exactly the next command and leaves the reader at the
+// start of the one after it ("reading stops exactly at the command's newline so the next call
+// returns the next command").
+func runReader(c *sup.Child, idx int) {
+	rng := c.Rand(idx)
+	k := 2 + rng.Intn(5)
+	var script strings.Builder
+	var ends []int
+	for i := 0; i < k; i++ {
+		script.WriteString([]string{"", " ", "\t"}[rng.Intn(3)])
+		fmt.Fprintf(&script, "rprobe --id=%d", i)
+		if rng.Intn(2) == 0 {
+			fmt.Fprintf(&script, " \"quoted arg %d\" tail", i)
+		}
+		if rng.Intn(3) == 0 {
+			script.WriteString(" \\\n continued")
+		}
+		script.WriteString("\n")
+		ends = append(ends, script.Len())
+	}
+	text := script.String()
+	l := &lateRun{}
+	c.Case(idx, map[string]any{"kind": "reader", "script": text}, func(r *sup.CaseResult) {
+		var err error
+		if l.mapp, err = goatapp.NewMockupApp(goatapp.Params{}); err != nil {
+			r.Inconclusive = err.Error()
+			return
+		}
+		bs := bootstrap.NewBootstrap(l.mapp)
+		if err = goaterr.ToError(goaterr.AppendError(nil, bs.Register(terminalm.NewModule()), bs.Register(commonm.NewModule()),
+			bs.Register(ocm.NewModule()), bs.Register(pipelinem.NewModule()))); err == nil {
+			err = bs.Init()
+		}
+		if err != nil {
+			r.Inconclusive = "application stack: " + err.Error()
+			return
+		}
+		var ran []int
+		l.mapp.Terminal().SetCommand(terminal.NewCommand(terminal.CommandParams{Name: "rprobe", Callback: func(a app.App, ctx app.IOContext) error {
+			var deps struct {
+				ID string `command:"?id"`
+			}
+			if err := ctx.Scope().InjectTo(&deps); err != nil {
+				return err
+			}
+			id, _ := strconv.Atoi(deps.ID)
+			ran = append(ran, id)
+			return nil
+		}}))
+		var tdeps struct {
+			Terminal termservices.Terminal `dependency:"TerminalService"`
+		}
+		if err = l.mapp.DependencyProvider().InjectTo(&tdeps); err != nil {
+			r.Inconclusive = err.Error()
+			return
+		}
+		rd := &countingReader{r: strings.NewReader(text)}
+		wit := map[string]any{"script": text}
+		for i := 0; i < k; i++ {
+			ctx := gio.NewChildIOContext(l.mapp.IOContext(), gio.ChildIOContextParams{})
+			_, rerr := tdeps.Terminal.RunCommandFromReader(ctx, rd)
+			ctx.Scope().Wait()
+			func() {
+				defer func() { recover() }()
+				ctx.Close()
+			}()
+			if rerr != nil {
+				r.Violate("reader-command-error", fmt.Sprintf("call %d of RunCommandFromReader on a reader that holds %d commands returned %v (commands run so far: %v)", i+1, k, rerr, ran), wit)
+				return
+			}
+			if len(ran) != i+1 || ran[i] != i {
+				r.Violate("reader-wrong-command", fmt.Sprintf("call %d of RunCommandFromReader: commands run so far %v, want 0…%d in order", i+1, ran, i), wit)
+				return
+			}
+			if rd.n != ends[i] {
+				r.Violate("reader-stop-position", fmt.Sprintf("call %d of RunCommandFromReader took %d bytes from the reader; command %d ends (with its newline) at byte %d of %d: reading must stop exactly there so that the next call finds the next command", i+1, rd.n, i, ends[i], len(text)), wit)
+				return
+			}
+		}
+		r.AddObs("commands_run_one_by_one_from_a_plain_reader", int64(k))
+		r.Key = "reader|" + text
 		r.Nontrivial = true
 	})
 }
